@@ -99,9 +99,10 @@ fn make_stream(c: &Case, frames: &Arc<[Frame]>, d: &DecoderCfg) -> Result<Stream
 	}
 	let mut data = StreamingSoundData::from_decoder(dec).with_settings(settings);
 	data.slice = c.slice;
+	let mark = streamctl::mark();
 	let (sound, handle) = data.into_sound().map_err(|e| Failure::simple("into-sound", format!("streaming into_sound failed: {e:?}")))?;
 	let id = handle.verif_id();
-	streamctl::adopt(id);
+	streamctl::adopt(id, mark);
 	Ok(Stream { sound, handle, log, id })
 }
 
